@@ -10,7 +10,7 @@ THEOREMS = [
 ]
 MODULE = "LV.Notifier.Props"
 TARGETS = ["theories/Notifier/Props.vo", "theories/Notifier/Exec.vo",
-           "theories/Notifier/Examples.vo"]
+           "theories/Notifier/Examples.vo", "theories/Notifier/GenBridge.vo"]
 WARM = [{"pkg": "chainntnfs", "files": ["chainntnfs/verif_txnotifier_test.go"]}]
 IMPORTS = ("From Coq Require Import List NArith.\nImport ListNotations.\n"
            "From LV Require Import Notifier.Model Notifier.Exec.\n")
